@@ -114,17 +114,29 @@ Lemma map_length_z {A B} (f : A -> B) (l : list A) : zlen (map f l) = zlen l.
 Proof. unfold zlen. rewrite map_length. reflexivity. Qed.
 
 (* ====================== 2. the walks over a semantic chain ====================== *)
+Lemma link_ok_map {A B} (f : A -> B) z (r : list A) : link_ok z r = true -> map f r <> [] -> z <> 0.
+Proof. destruct r as [|x r]; cbn [link_ok map]; intros H Hn; [congruence|lia]. Qed.
+
+Lemma ends_with_zero_map {A B} (f : A -> B) (na : A -> Z) (nb : B -> Z) :
+  (forall x, nb (f x) = na x) -> forall l, ends_with_zero nb (map f l) = ends_with_zero na l.
+Proof.
+  intros Hf. induction l as [|x r IH]; [reflexivity|].
+  destruct r as [|y r']; cbn [map ends_with_zero]; [rewrite Hf; reflexivity|exact IH].
+Qed.
+
 Section generic.
 Variable c : vcfg.
 Variable img : list Z.
 Variable st : shdr.
 
+(* a record with a successor carries a non-zero next link (a zero link ends the walk) *)
 Fixpoint aux_ok (off : Z) (auxs : list aux_view) : Prop :=
   match auxs with
   | [] => True
   | a :: rest =>
       struct_parse_at (version_auxiliaries_struct c) img off = Ok (fst a)
       /\ get_string img st (rec_z (fst a) (field_name c "name" true)) = snd a
+      /\ (rest <> [] -> rec_z (fst a) (field_name c "next" true) <> 0)
       /\ aux_ok (off + rec_z (fst a) (field_name c "next" true)) rest
   end.
 
@@ -138,27 +150,69 @@ Fixpoint ents_ok (ff : option string) (off : Z) (vs : list ver_view) : Prop :=
       /\ 0 < zlen (snd v)
       /\ snd (fst v) = option_map (fun f => get_string img st (rec_z r f)) ff
       /\ aux_ok (off + rec_z r (field_name c "aux" false)) (snd v)
+      /\ (rest <> [] -> rec_z r (field_name c "next" false) <> 0)
       /\ ents_ok ff (off + rec_z r (field_name c "next" false)) rest
   end.
+
+Definition ver_next (v : ver_view) : Z := rec_z (fst (fst v)) (field_name c "next" false).
+
+Lemma nonempty_cons {A} (x : A) l : x :: l <> [].
+Proof. discriminate. Qed.
 
 Lemma iter_aux_ok : forall auxs off, aux_ok off auxs ->
   iter_version_auxiliaries c img st (List.length auxs) off = Ok auxs.
 Proof.
   induction auxs as [|[r nm] rest IH]; intros off H; [reflexivity|].
-  cbn [aux_ok fst snd] in H. destruct H as (Hp & Hn & Hr).
-  cbn [List.length iter_version_auxiliaries]. rewrite Hp. cbn [bind].
-  rewrite (IH _ Hr). cbn [bind]. rewrite Hn. reflexivity.
+  cbn [aux_ok fst snd] in H. destruct H as (Hp & Hn & Hz & Hr).
+  cbn [List.length iter_version_auxiliaries]. rewrite Hp. cbn [bind]. rewrite Hn.
+  destruct (Z.eqb_spec (rec_z r (field_name c "next" true)) 0) as [E|E].
+  - destruct rest as [|x rest']; [reflexivity|]. exfalso. exact (Hz (nonempty_cons _ _) E).
+  - rewrite (IH _ Hr). reflexivity.
 Qed.
 
 Lemma iter_versions_ok ff : forall vs off, ents_ok ff off vs ->
   iter_versions_from c ff img st (List.length vs) off = Ok vs.
 Proof.
   induction vs as [|[[r nm] auxs] rest IH]; intros off H; [reflexivity|].
-  cbn [ents_ok fst snd] in H. destruct H as (Hp & Hc & Hpos & Hn & Ha & Hr).
+  cbn [ents_ok fst snd] in H. destruct H as (Hp & Hc & Hpos & Hn & Ha & Hz & Hr).
   cbn [List.length iter_versions_from]. rewrite Hp. cbn [bind]. rewrite Hc.
   replace (zlen auxs >? 0) with true by lia. cbn [negb].
-  rewrite to_nat_zlen, (iter_aux_ok _ _ Ha). cbn [bind].
-  rewrite (IH _ Hr). cbn [bind]. rewrite <- Hn. reflexivity.
+  rewrite to_nat_zlen, (iter_aux_ok _ _ Ha). cbn [bind]. rewrite <- Hn.
+  destruct (Z.eqb_spec (rec_z r (field_name c "next" false)) 0) as [E|E].
+  - destruct rest as [|x rest']; [reflexivity|]. exfalso. exact (Hz (nonempty_cons _ _) E).
+  - rewrite (IH _ Hr). reflexivity.
+Qed.
+
+(* the behaviour commit eedb89f introduced: the chain's last record carries a zero link and the
+   count claims MORE records; the walk ends at the zero link *)
+Lemma iter_versions_ended ff : forall vs off extra, ents_ok ff off vs ->
+  ends_with_zero ver_next vs = true ->
+  iter_versions_from c ff img st (List.length vs + extra) off = Ok vs.
+Proof.
+  induction vs as [|[[r nm] auxs] rest IH]; intros off extra H Hend; [discriminate|].
+  cbn [ents_ok fst snd] in H. destruct H as (Hp & Hc & Hpos & Hn & Ha & Hz & Hr).
+  cbn [List.length Nat.add iter_versions_from]. rewrite Hp. cbn [bind]. rewrite Hc.
+  replace (zlen auxs >? 0) with true by lia. cbn [negb].
+  rewrite to_nat_zlen, (iter_aux_ok _ _ Ha). cbn [bind]. rewrite <- Hn.
+  destruct (Z.eqb_spec (rec_z r (field_name c "next" false)) 0) as [E|E].
+  - destruct rest as [|x rest']; [reflexivity|]. exfalso. exact (Hz (nonempty_cons _ _) E).
+  - destruct rest as [|x rest'].
+    + exfalso. cbn [ends_with_zero] in Hend. unfold ver_next in Hend. cbn [fst] in Hend. lia.
+    + cbn [ends_with_zero] in Hend. rewrite (IH _ _ Hr Hend). reflexivity.
+Qed.
+
+Lemma iter_aux_ended : forall auxs off extra, aux_ok off auxs ->
+  ends_with_zero (fun a : aux_view => rec_z (fst a) (field_name c "next" true)) auxs = true ->
+  iter_version_auxiliaries c img st (List.length auxs + extra) off = Ok auxs.
+Proof.
+  induction auxs as [|[r nm] rest IH]; intros off extra H Hend; [discriminate|].
+  cbn [aux_ok fst snd] in H. destruct H as (Hp & Hn & Hz & Hr).
+  cbn [List.length Nat.add iter_version_auxiliaries]. rewrite Hp. cbn [bind]. rewrite Hn.
+  destruct (Z.eqb_spec (rec_z r (field_name c "next" true)) 0) as [E|E].
+  - destruct rest as [|x rest']; [reflexivity|]. exfalso. exact (Hz (nonempty_cons _ _) E).
+  - destruct rest as [|x rest'].
+    + exfalso. cbn [ends_with_zero fst] in Hend. lia.
+    + cbn [ends_with_zero] in Hend. rewrite (IH _ _ Hr Hend). reflexivity.
 Qed.
 
 (* GNUVerDefSection.get_version *)
@@ -167,12 +221,14 @@ Lemma verdef_get_version_ok idx : forall vs off, ents_ok None off vs ->
   = Ok (find (fun v => rec_z (fst (fst v)) "vd_ndx" =? idx) vs).
 Proof.
   induction vs as [|[[r nm] auxs] rest IH]; intros off H; [reflexivity|].
-  cbn [ents_ok fst snd option_map] in H. destruct H as (Hp & Hc & Hpos & Hn & Ha & Hr).
+  cbn [ents_ok fst snd option_map] in H. destruct H as (Hp & Hc & Hpos & Hn & Ha & Hz & Hr).
   cbn [List.length verdef_get_version_from find fst]. rewrite Hp. cbn [bind]. rewrite Hc.
   replace (zlen auxs >? 0) with true by lia. cbn [negb].
   destruct (rec_z r "vd_ndx" =? idx).
   - rewrite to_nat_zlen, (iter_aux_ok _ _ Ha). cbn [bind]. rewrite Hn. reflexivity.
-  - apply IH. exact Hr.
+  - destruct (Z.eqb_spec (rec_z r (field_name c "next" false)) 0) as [E|E].
+    + destruct rest as [|x rest']; [reflexivity|]. exfalso. exact (Hz (nonempty_cons _ _) E).
+    + apply IH. exact Hr.
 Qed.
 
 (* inner loop of GNUVerNeedSection.get_version *)
@@ -181,11 +237,13 @@ Lemma find_vernaux_ok idx : forall auxs off, aux_ok off auxs ->
   = Ok (find (fun a => rec_z (fst a) "vna_other" =? idx) auxs).
 Proof.
   induction auxs as [|[r nm] rest IH]; intros off H; [reflexivity|].
-  cbn [aux_ok fst snd] in H. destruct H as (Hp & Hn & Hr).
+  cbn [aux_ok fst snd] in H. destruct H as (Hp & Hn & Hz & Hr).
   cbn [List.length find_vernaux find fst]. rewrite Hp. cbn [bind].
   destruct (rec_z r "vna_other" =? idx).
   - rewrite Hn. reflexivity.
-  - apply IH. exact Hr.
+  - destruct (Z.eqb_spec (rec_z r (field_name c "next" true)) 0) as [E|E].
+    + destruct rest as [|x rest']; [reflexivity|]. exfalso. exact (Hz (nonempty_cons _ _) E).
+    + apply IH. exact Hr.
 Qed.
 
 Fixpoint need_find (idx : Z) (vs : list ver_view) : option (record * list Z * aux_view) :=
@@ -202,13 +260,15 @@ Lemma verneed_get_version_ok idx : forall vs off, ents_ok (Some "vn_file"%string
   verneed_get_version_from c img st (List.length vs) off idx = Ok (need_find idx vs).
 Proof.
   induction vs as [|[[r nm] auxs] rest IH]; intros off H; [reflexivity|].
-  cbn [ents_ok fst snd option_map] in H. destruct H as (Hp & Hc & Hpos & Hn & Ha & Hr).
+  cbn [ents_ok fst snd option_map] in H. destruct H as (Hp & Hc & Hpos & Hn & Ha & Hz & Hr).
   cbn [List.length verneed_get_version_from need_find fst snd]. rewrite Hp. cbn [bind]. rewrite Hc.
   replace (zlen auxs >? 0) with true by lia. cbn [negb].
   rewrite to_nat_zlen, (find_vernaux_ok idx _ _ Ha). cbn [bind].
   destruct (find (fun a => rec_z (fst a) "vna_other" =? idx) auxs) as [a|].
   - rewrite Hn. reflexivity.
-  - apply IH. exact Hr.
+  - destruct (Z.eqb_spec (rec_z r (field_name c "next" false)) 0) as [E|E].
+    + destruct rest as [|x rest']; [reflexivity|]. exfalso. exact (Hz (nonempty_cons _ _) E).
+    + apply IH. exact Hr.
 Qed.
 
 (* has_indexes *)
@@ -218,11 +278,14 @@ Lemma has_indexes_inner_ok : forall auxs off, aux_ok off auxs ->
   has_indexes_inner c img (List.length auxs) off = Ok (existsb aux_has_index auxs).
 Proof.
   induction auxs as [|[r nm] rest IH]; intros off H; [reflexivity|].
-  cbn [aux_ok fst snd] in H. destruct H as (Hp & Hn & Hr).
+  cbn [aux_ok fst snd] in H. destruct H as (Hp & Hn & Hz & Hr).
   cbn [List.length has_indexes_inner existsb]. rewrite Hp. cbn [bind].
   unfold aux_has_index at 1. cbn [fst].
   destruct (negb (rec_z r "vna_other" =? 0)); [reflexivity|].
-  cbn [orb]. apply IH. exact Hr.
+  cbn [orb].
+  destruct (Z.eqb_spec (rec_z r (field_name c "next" true)) 0) as [E|E].
+  - destruct rest as [|x rest']; [reflexivity|]. exfalso. exact (Hz (nonempty_cons _ _) E).
+  - apply IH. exact Hr.
 Qed.
 
 Lemma has_indexes_outer_ok ff : forall vs off flag, ents_ok ff off vs ->
@@ -231,11 +294,14 @@ Lemma has_indexes_outer_ok ff : forall vs off flag, ents_ok ff off vs ->
 Proof.
   induction vs as [|[[r nm] auxs] rest IH]; intros off flag H.
   - cbn [List.length has_indexes_outer existsb]. rewrite orb_false_r. reflexivity.
-  - cbn [ents_ok fst snd] in H. destruct H as (Hp & Hc & Hpos & Hn & Ha & Hr).
+  - cbn [ents_ok fst snd] in H. destruct H as (Hp & Hc & Hpos & Hn & Ha & Hz & Hr).
     cbn [List.length has_indexes_outer existsb snd]. rewrite Hp, Hc.
     replace (zlen auxs >? 0) with true by lia. cbn [negb].
     rewrite to_nat_zlen, (has_indexes_inner_ok _ _ Ha).
-    rewrite (IH _ _ Hr). rewrite orb_assoc. reflexivity.
+    destruct (Z.eqb_spec (rec_z r (field_name c "next" false)) 0) as [E|E].
+    + destruct rest as [|x rest']; [|exfalso; exact (Hz (nonempty_cons _ _) E)].
+      cbn [existsb]. rewrite orb_false_r. reflexivity.
+    + rewrite (IH _ _ Hr). rewrite orb_assoc. reflexivity.
 Qed.
 End generic.
 
@@ -281,12 +347,11 @@ Lemma verdaux_chain_ok le is64 img st : forall auxs off,
   aux_ok (verdef_cfg le is64) img st off (map verdaux_view auxs).
 Proof.
   induction auxs as [|a r IH]; intros off H; cbn [map aux_ok]; [exact I|].
-  cbn [verdaux_chain] in H. rewrite !andb_true_iff in H. destruct H as [[[Hf Hp] Hs] Hr].
-  split; [apply parse_verdaux; assumption|]. split.
-  - change (rec_z (fst (verdaux_view a)) (field_name (verdef_cfg le is64) "name" true)) with (vda_name a).
-    apply str_at_get_string. exact Hs.
-  - change (rec_z (fst (verdaux_view a)) (field_name (verdef_cfg le is64) "next" true)) with (vda_next a).
-    apply IH. exact Hr.
+  cbn [verdaux_chain] in H. rewrite !andb_true_iff in H. destruct H as [[[[Hf Hp] Hs] Hl] Hr].
+  change (rec_z (fst (verdaux_view a)) (field_name (verdef_cfg le is64) "name" true)) with (vda_name a).
+  change (rec_z (fst (verdaux_view a)) (field_name (verdef_cfg le is64) "next" true)) with (vda_next a).
+  split; [apply parse_verdaux; assumption|]. split; [apply str_at_get_string; exact Hs|].
+  split; [exact (link_ok_map _ _ _ Hl)|apply IH; exact Hr].
 Qed.
 
 Lemma verdef_chain_ok le is64 img st : forall defs off,
@@ -294,16 +359,14 @@ Lemma verdef_chain_ok le is64 img st : forall defs off,
   ents_ok (verdef_cfg le is64) img st None off (map verdef_view defs).
 Proof.
   induction defs as [|d r IH]; intros off H; cbn [map ents_ok]; [exact I|].
-  cbn [verdef_chain] in H. rewrite !andb_true_iff in H. destruct H as [[[[Hf Hc] Hp] Ha] Hr].
-  unfold verdef_view at 1 2 3 4 5 6. cbn [fst snd option_map]. rewrite map_length_z.
+  cbn [verdef_chain] in H. rewrite !andb_true_iff in H. destruct H as [[[[[Hf Hc] Hp] Ha] Hl] Hr].
+  unfold verdef_view at 1 2 3 4 5 6 7. cbn [fst snd option_map]. rewrite map_length_z.
   change (rec_z (verdef_fields d) (field_name (verdef_cfg le is64) "cnt" false)) with (zlen (vd_auxs d)).
   change (rec_z (verdef_fields d) (field_name (verdef_cfg le is64) "aux" false)) with (vd_aux d).
   change (rec_z (verdef_fields d) (field_name (verdef_cfg le is64) "next" false)) with (vd_next d).
-  repeat split.
-  - apply parse_verdef; assumption.
-  - lia.
-  - apply verdaux_chain_ok. exact Ha.
-  - apply IH. exact Hr.
+  split; [apply parse_verdef; assumption|]. split; [reflexivity|]. split; [lia|]. split; [reflexivity|].
+  split; [apply verdaux_chain_ok; exact Ha|].
+  split; [exact (link_ok_map _ _ _ Hl)|apply IH; exact Hr].
 Qed.
 
 Lemma vernaux_chain_ok le is64 img st : forall auxs off,
@@ -311,12 +374,11 @@ Lemma vernaux_chain_ok le is64 img st : forall auxs off,
   aux_ok (verneed_cfg le is64) img st off (map vernaux_view auxs).
 Proof.
   induction auxs as [|a r IH]; intros off H; cbn [map aux_ok]; [exact I|].
-  cbn [vernaux_chain] in H. rewrite !andb_true_iff in H. destruct H as [[[Hf Hp] Hs] Hr].
-  split; [apply parse_vernaux; assumption|]. split.
-  - change (rec_z (fst (vernaux_view a)) (field_name (verneed_cfg le is64) "name" true)) with (vna_name a).
-    apply str_at_get_string. exact Hs.
-  - change (rec_z (fst (vernaux_view a)) (field_name (verneed_cfg le is64) "next" true)) with (vna_next a).
-    apply IH. exact Hr.
+  cbn [vernaux_chain] in H. rewrite !andb_true_iff in H. destruct H as [[[[Hf Hp] Hs] Hl] Hr].
+  change (rec_z (fst (vernaux_view a)) (field_name (verneed_cfg le is64) "name" true)) with (vna_name a).
+  change (rec_z (fst (vernaux_view a)) (field_name (verneed_cfg le is64) "next" true)) with (vna_next a).
+  split; [apply parse_vernaux; assumption|]. split; [apply str_at_get_string; exact Hs|].
+  split; [exact (link_ok_map _ _ _ Hl)|apply IH; exact Hr].
 Qed.
 
 Lemma verneed_chain_ok le is64 img st : forall needs off,
@@ -324,18 +386,16 @@ Lemma verneed_chain_ok le is64 img st : forall needs off,
   ents_ok (verneed_cfg le is64) img st (Some "vn_file"%string) off (map verneed_view needs).
 Proof.
   induction needs as [|d r IH]; intros off H; cbn [map ents_ok]; [exact I|].
-  cbn [verneed_chain] in H. rewrite !andb_true_iff in H. destruct H as [[[[[Hf Hc] Hp] Hs] Ha] Hr].
-  unfold verneed_view at 1 2 3 4 5 6 7. cbn [fst snd option_map]. rewrite map_length_z.
+  cbn [verneed_chain] in H. rewrite !andb_true_iff in H. destruct H as [[[[[[Hf Hc] Hp] Hs] Ha] Hl] Hr].
+  unfold verneed_view at 1 2 3 4 5 6 7 8. cbn [fst snd option_map]. rewrite map_length_z.
   change (rec_z (verneed_fields d) (field_name (verneed_cfg le is64) "cnt" false)) with (zlen (vn_auxs d)).
   change (rec_z (verneed_fields d) (field_name (verneed_cfg le is64) "aux" false)) with (vn_aux d).
   change (rec_z (verneed_fields d) (field_name (verneed_cfg le is64) "next" false)) with (vn_next d).
   change (rec_z (verneed_fields d) "vn_file") with (vn_file d).
-  repeat split.
-  - apply parse_verneed; assumption.
-  - lia.
-  - f_equal. symmetry. apply str_at_get_string. exact Hs.
-  - apply vernaux_chain_ok. exact Ha.
-  - apply IH. exact Hr.
+  split; [apply parse_verneed; assumption|]. split; [reflexivity|]. split; [lia|].
+  split; [f_equal; symmetry; apply str_at_get_string; exact Hs|].
+  split; [apply vernaux_chain_ok; exact Ha|].
+  split; [exact (link_ok_map _ _ _ Hl)|apply IH; exact Hr].
 Qed.
 
 (* ---- chain-level statements (no header table involved) ---- *)
@@ -355,6 +415,33 @@ Theorem verneed_chain_exact le is64 img h st needs :
 Proof.
   intros Hn Hc. unfold verneed_iter_versions, iter_versions, num_versions. rewrite Hn, to_nat_zlen.
   rewrite <- (map_length verneed_view). apply iter_versions_ok. apply verneed_chain_ok. exact Hc.
+Qed.
+
+(* the count claims more entries than the chain has, the chain's last entry says "no further entry" *)
+Theorem verdef_chain_ended le is64 img h st defs :
+  zlen defs <= sh_info h -> ends_with_zero vd_next defs = true ->
+  verdef_chain le img (sh_offset st) (sh_offset h) defs = true ->
+  verdef_iter_versions le is64 img h st = Ok (map verdef_view defs).
+Proof.
+  intros Hn He Hc. unfold verdef_iter_versions, iter_versions, num_versions.
+  replace (Z.to_nat (sh_info h))
+    with (List.length (map verdef_view defs) + (Z.to_nat (sh_info h) - List.length defs))%nat
+    by (rewrite map_length; unfold zlen in Hn; lia).
+  apply iter_versions_ended; [apply verdef_chain_ok; exact Hc|].
+  rewrite (ends_with_zero_map verdef_view vd_next); [exact He|reflexivity].
+Qed.
+
+Theorem verneed_chain_ended le is64 img h st needs :
+  zlen needs <= sh_info h -> ends_with_zero vn_next needs = true ->
+  verneed_chain le img (sh_offset st) (sh_offset h) needs = true ->
+  verneed_iter_versions le is64 img h st = Ok (map verneed_view needs).
+Proof.
+  intros Hn He Hc. unfold verneed_iter_versions, iter_versions, num_versions.
+  replace (Z.to_nat (sh_info h))
+    with (List.length (map verneed_view needs) + (Z.to_nat (sh_info h) - List.length needs))%nat
+    by (rewrite map_length; unfold zlen in Hn; lia).
+  apply iter_versions_ended; [apply verneed_chain_ok; exact Hc|].
+  rewrite (ends_with_zero_map verneed_view vn_next); [exact He|reflexivity].
 Qed.
 
 Lemma find_verdef_view idx : forall defs,
@@ -581,6 +668,28 @@ Proof.
   intros H. apply andb_prop in H. destruct H as [Hn Hc]. apply Z.eqb_eq in Hn.
   unfold file_verneed_versions, file_num_versions. rewrite (get_section_verneed is64 _ _ _ _ E). cbn [bind].
   split; [apply verneed_chain_exact; assumption|]. unfold num_versions. rewrite Hn. reflexivity.
+Qed.
+
+Theorem verdef_section_ended le is64 img shdrs n defs :
+  verdef_section_ended_wf le img shdrs n defs = true ->
+  file_verdef_versions le is64 img shdrs (Z.of_nat n) = Ok (map verdef_view defs).
+Proof.
+  unfold verdef_section_ended_wf.
+  destruct (linked shdrs n SHT_GNU_verdef [SHT_STRTAB]) as [[h st]|] eqn:E; [|discriminate].
+  intros H. rewrite !andb_true_iff in H. destruct H as [[Hn He] Hc].
+  unfold file_verdef_versions. rewrite (get_section_verdef is64 _ _ _ _ E). cbn [bind].
+  apply verdef_chain_ended; [lia|exact He|exact Hc].
+Qed.
+
+Theorem verneed_section_ended le is64 img shdrs n needs :
+  verneed_section_ended_wf le img shdrs n needs = true ->
+  file_verneed_versions le is64 img shdrs (Z.of_nat n) = Ok (map verneed_view needs).
+Proof.
+  unfold verneed_section_ended_wf.
+  destruct (linked shdrs n SHT_GNU_verneed [SHT_STRTAB]) as [[h st]|] eqn:E; [|discriminate].
+  intros H. rewrite !andb_true_iff in H. destruct H as [[Hn He] Hc].
+  unfold file_verneed_versions. rewrite (get_section_verneed is64 _ _ _ _ E). cbn [bind].
+  apply verneed_chain_ended; [lia|exact He|exact Hc].
 Qed.
 
 Theorem verdef_get_version_exact le is64 img shdrs n defs idx :
